@@ -301,7 +301,8 @@ func BLSAddMul(sig, d string, c int64) string {
 	return out.SerializeToHexStr()
 }
 
-// Havoc replaces every integer / bool leaf reachable from *ptr (struct fields incl. unexported,
+// Havoc replaces every integer / bool leaf reachable from *ptr (struct fields incl. unexported
+// but not those tagged msg:"-", which are transient by declaration,
 // arrays, slices other than byte strings, pointers, map values in sorted key order; strings and
 // floats are left alone) by a nondeterministic value named "hv". Under the executor the leaves
 // become fresh symbols; natively they are read from the replay vector in the same order.
@@ -327,7 +328,7 @@ func isSync(t reflect.Type) bool {
 	for t.Kind() == reflect.Ptr {
 		t = t.Elem()
 	}
-	return t.PkgPath() == "sync"
+	return t.PkgPath() == "sync" || (t.PkgPath() == "time" && t.Name() == "Time")
 }
 
 func havoc(v reflect.Value, depth int) {
@@ -345,7 +346,7 @@ func havoc(v reflect.Value, depth int) {
 	case reflect.Struct:
 		for i := 0; i < v.NumField(); i++ {
 			f := v.Type().Field(i)
-			if f.Name == "_" || isSync(f.Type) {
+			if f.Name == "_" || isSync(f.Type) || f.Tag.Get("msg") == "-" {
 				continue
 			}
 			havoc(v.Field(i), depth+1)
@@ -401,7 +402,7 @@ func deepEq(a, b reflect.Value, depth int) bool {
 	case reflect.Struct:
 		for i := 0; i < a.NumField(); i++ {
 			f := a.Type().Field(i)
-			if f.Name == "_" || isSync(f.Type) {
+			if f.Name == "_" || isSync(f.Type) || f.Tag.Get("msg") == "-" {
 				continue
 			}
 			if !deepEq(a.Field(i), b.Field(i), depth+1) {
